@@ -224,6 +224,7 @@ def judge_c(program, sc, res):
 
 
 def run_shard(spec, seed, tier, active):
+    conc.MAX_SCHEDULES[0] = 2500 if tier == "quick" else 20000
     ci = CLASSES[spec["cls"]]
     acc = Acc()
     if spec["part"] == "A":
